@@ -51,6 +51,13 @@ theorem storage_idempotent (alive : V → Bool) (t : List Tag) (h : entityWF ali
   obtain ⟨hw, ho⟩ := canon_wf alive t h
   exact ⟨canon t, storage_roundtrip alive t h, storage_identity alive (canon t) hw ho⟩
 
+/- OPEN, not proved (stronger than the planned statement): the fixed-point property without `EntityWF`,
+     theorem storage_idempotent_any (alive) (t u) (h : roundtrip alive t = .ok u) : roundtrip alive u = .ok u
+   Reason: outside `EntityWF` the output is not `canon t` (tags are dropped, merged, or a closing (102, "}") is added), so the
+   proof needs a second normal form for every exclusion.  Checked instead on every input of the correspondence stream X1
+   (model and real code, about 3000 malformed inputs per quick run) and pinned for the individual exclusions by the
+   counterexample theorems below (e.g. `alt_close_counterexample` includes the fixed point). -/
+
 /-- nothing is lost and nothing is invented -/
 theorem storage_nothing_lost (alive : V → Bool) (t : List Tag) (h : entityWF alive t = true) :
     ∃ u, roundtrip alive t = .ok u ∧ u.Perm t :=
